@@ -283,7 +283,8 @@ fn probe(valid: &AlignedBuf, buf: &AlignedBuf, names: &Names, traces: &[TTrace],
         let _ = c.sig(&d);
         rep.count("evaluations", 1);
         let slow = cfg!(miri) || std::env::var_os("PGV_SLOW").is_some();
-        for e in pgvcore::desc::single_edits(&d).iter().take(if slow { 8 } else { 40 }) {
+        let edits = if d.len() < 200 { pgvcore::desc::single_edits(&d) } else { vec![] };
+        for e in edits.iter().take(if slow { 8 } else { 40 }) {
             let _ = c.sig(e);
             rep.count("evaluations", 1);
             rep.count("signature_queries_single_edit", 1);
